@@ -504,7 +504,10 @@ func _fetch(data map[string]any, key string) (any, bool) {
 		for _, g := range groups {
 			if value, ok := data[g]; ok {
 				if submap, ok := value.(map[string]any); ok {
-					return _fetch(submap, parts[1])
+					// keep looking in the alternative group names if this one doesn't have the key
+					if found, ok := _fetch(submap, parts[1]); ok {
+						return found, true
+					}
 				}
 			}
 		}
